@@ -200,8 +200,8 @@ class CS(Optimizer):
             r1 = r.generate_uniform_random_number(0, 1)
 
             # Then, we select two random nests
-            k = int(r.generate_uniform_random_number(0, len(agents)-1))
-            l = int(r.generate_uniform_random_number(0, len(agents)-1))
+            k = int(r.generate_uniform_random_number(0, len(agents)-1)[0])
+            l = int(r.generate_uniform_random_number(0, len(agents)-1)[0])
 
             # Calculating the random walk between these two nests
             step_size = r1 * (agents[k].position - agents[l].position)
